@@ -49,6 +49,8 @@ class Projection:
             if np.abs(diff) < tolerance1:
                 return [initparam]
             niter += 1
+            if niter > 100:  # Newton is cycling: keep the current candidate
+                return [initparam]
 
     @staticmethod
     def point_on_bezier(point: Tuple[float], bezier: Curve) -> Tuple[float]:
